@@ -106,6 +106,18 @@ Theorem C15_split_size_upper : forall data l,
 Proof. exact decode_contents_upper. Qed.
 Print Assumptions C15_split_size_upper.
 
+(* streams compose: joining distributes over append, and two accepted streams laid end to end split into the two lists
+   laid end to end - no item straddles the seam (what lets a sender write the frames one after another) *)
+Theorem C15_join_append : forall l1 l2 : list bytes,
+  encode_contents (l1 ++ l2) = encode_contents l1 ++ encode_contents l2.
+Proof. exact encode_contents_app. Qed.
+Print Assumptions C15_join_append.
+
+Theorem C15_split_append : forall s1 l1 s2 l2,
+  decode_contents s1 = Ok l1 -> decode_contents s2 = Ok l2 -> decode_contents (s1 ++ s2) = Ok (l1 ++ l2).
+Proof. exact decode_contents_app. Qed.
+Print Assumptions C15_split_append.
+
 (* why `short` is in the statements: encodeSingleContent converts len(data) to uint32, so an item of exactly 2^32
    bytes is framed as an EMPTY item followed by its bytes, which the splitter reads as further items.  Not reachable
    over uTP with the item sizes the quantifier names (<= 2^20); stated so that the hypothesis is seen to be necessary. *)
